@@ -5,9 +5,11 @@ import (
 	"bytes"
 	"encoding/json"
 	"fmt"
+	"github.com/samaritan-proxy/samaritan/utils/verifpoint"
 	"strconv"
 	"strings"
 	"sync"
+	"sync/atomic"
 	"testing"
 	"time"
 
@@ -468,6 +470,12 @@ const sigOvertake = "pipelined-same-key-overtaken-across-table-refresh"
 type overtakeCase struct {
 	DelayMs int `json:"moved_reply_delay_ms"`
 	WaitMs  int `json:"second_command_after_ms"`
+	// NoRefresh: CLUSTER NODES is answered only after 800 ms, so the routing table cannot be refreshed between the two commands
+	// (on the pinned code the table only changes through a refresh: both commands then take the same way and stay in order).
+	// HoldResendMs: the first request on its way to the new owner (the resend of the redirected command) is held this long at
+	// the pause point behind the upstream's quit check, as a slow first connection to that node would hold it.
+	NoRefresh    bool `json:"no_refresh,omitempty"`
+	HoldResendMs int  `json:"hold_resend_ms,omitempty"`
 }
 
 // checkOvertake: slot s moves from A to B; A answers the next command (a MOVED) only after DelayMs; the
@@ -498,12 +506,40 @@ func checkOvertake(c overtakeCase) (observed bool, v *verdict) {
 	if r, err := cl.Do(replyTimeout, "SET", key, "v"); err != nil || r.IsErr() {
 		return false, &verdict{"reply-missing", fmt.Sprintf("SET: %v %v", r, err)}
 	}
+	if c.NoRefresh {
+		w.Lock()
+		w.DelayCmd = func(node int, args [][]byte) time.Duration {
+			if strings.EqualFold(string(args[0]), "cluster") {
+				return 800 * time.Millisecond
+			}
+			return 0
+		}
+		w.Unlock()
+		time.Sleep(120 * time.Millisecond) // a refresh under way has been answered; every later one is held
+	}
+	if c.HoldResendMs > 0 {
+		target := w.Nodes[to].Addr
+		var fired int32
+		verifpoint.SetHandler(func(name string, arg interface{}) {
+			if name != "redis.upstream.request.after-quit-check" {
+				return
+			}
+			if a, ok := arg.(string); !ok || a != target || !atomic.CompareAndSwapInt32(&fired, 0, 1) {
+				return
+			}
+			time.Sleep(time.Duration(c.HoldResendMs) * time.Millisecond)
+		})
+		defer verifpoint.SetHandler(nil)
+	}
 	w.BeginMigration(slot, to)
 	w.Finalise(slot)
 	w.Lock()
 	w.DelayCmd = func(node int, args [][]byte) time.Duration {
 		if node == from && strings.EqualFold(string(args[0]), "append") {
 			return time.Duration(c.DelayMs) * time.Millisecond
+		}
+		if c.NoRefresh && strings.EqualFold(string(args[0]), "cluster") {
+			return 800 * time.Millisecond
 		}
 		return 0
 	}
@@ -536,7 +572,10 @@ func checkOvertake(c overtakeCase) (observed bool, v *verdict) {
 }
 
 func TestKnownOvertake(t *testing.T) {
-	for _, c := range []overtakeCase{{DelayMs: 400, WaitMs: 200}, {DelayMs: 300, WaitMs: 150}, {DelayMs: 0, WaitMs: 0}, {DelayMs: 0, WaitMs: 100}} {
+	for _, c := range []overtakeCase{{DelayMs: 400, WaitMs: 200}, {DelayMs: 300, WaitMs: 150}, {DelayMs: 0, WaitMs: 0}, {DelayMs: 0, WaitMs: 100},
+		// no refresh possible in between: the order must hold whatever the timing (not the known finding)
+		{NoRefresh: true, HoldResendMs: 150, WaitMs: 30}, {NoRefresh: true, HoldResendMs: 60, WaitMs: 5}, {NoRefresh: true, HoldResendMs: 0, WaitMs: 0},
+		{NoRefresh: true, DelayMs: 50, HoldResendMs: 150, WaitMs: 100}} {
 		observed, v := checkOvertake(c)
 		// the periodic refresh asks a random node; when it asks the slow one it is queued behind the delayed
 		// reply and the table is not refreshed in time: try a few times
